@@ -132,6 +132,9 @@ def nested():
     d.append("Blobs ::= SEQUENCE { o OCTET STRING (SIZE(0..4)), b BIT STRING (SIZE(0..12)), ox OCTET STRING (SIZE(2,...)) OPTIONAL, bx BIT STRING OPTIONAL }")
     d.append("Nums ::= SEQUENCE { a INTEGER (-5..5), b INTEGER OPTIONAL, c INTEGER (0..255,...) DEFAULT 7, d INTEGER (5..MAX), e INTEGER (0..65535) }")
     d.append("DefX ::= SEQUENCE { a BOOLEAN, ..., b INTEGER (0..7) DEFAULT 3, c BOOLEAN DEFAULT TRUE, d IA5String (SIZE(0..3)) DEFAULT \"ab\" }")
+    # an OPTIONAL SEQUENCE whose own components are OPTIONAL (ProtobufEq of two present values is not `==`)
+    d.append("Inner2 ::= SEQUENCE { n INTEGER (0..255) OPTIONAL, l SEQUENCE OF INTEGER (0..255) OPTIONAL }")
+    d.append("Outer2 ::= SEQUENCE { inner Inner2 OPTIONAL, tail INTEGER (0..255) }")
     d.append("ManyOpt ::= SEQUENCE { " + ", ".join(f"o{i} BOOLEAN OPTIONAL" for i in range(10)) + " }")
     d.append("ManyAdd ::= SEQUENCE { r BOOLEAN, ..., " + ", ".join(f"a{i} INTEGER (0..3) OPTIONAL" for i in range(9)) + " }")
     # 64 / 65 / 66 extension additions: the count leaves the 6-bit form, the bitmap is longer than a machine word
